@@ -186,28 +186,34 @@ func decPayload(s string) (payload, bool) {
 // ---------------------------------------------------------------------------------------------- world
 
 type sigObs struct {
-	Src   int
-	Valid bool
+	Src      int
+	Valid    bool
+	From, To string
+	Amount   uint64
+	// multisig: the harness's own verdict on the wallet's authorisation (filled for votes on the multisig contract)
+	MsChecked, MsSelfRegistered bool
+	MsQuorum, MsRequired        int
 }
 
 // obs: what the implementation run observed for one op (side channel to the oracle, keyed by the op sequence).
 type obs struct {
-	kind        string // init | txn
-	typ         string
-	sender, to  int
-	value, fee  uint64
-	feeOn       bool
-	fn          string
-	status      string
-	signed      []sigObs
-	grantSeen   bool // a free_allocation_request
-	grantValid  bool // ... whose marker the harness itself found valid
-	grantMax    uint64
-	grantReplay bool // the marker's (assigner, nonce) is already in the harness's own book of redeemed markers
-	dryErr      string
-	hash        string
-	recorded    string // the queue the dry run recorded now
-	output      string
+	kind         string // init | txn
+	typ          string
+	sender, to   int
+	value, fee   uint64
+	feeOn        bool
+	fn           string
+	status       string
+	signed       []sigObs
+	grantSeen    bool // a free_allocation_request
+	grantValid   bool // ... whose marker the harness itself found valid
+	grantMax     uint64
+	msRegByOther bool // a multisig wallet was registered by a transaction whose sender is not the wallet
+	grantReplay  bool // the marker's (assigner, nonce) is already in the harness's own book of redeemed markers
+	dryErr       string
+	hash         string
+	recorded     string // the queue the dry run recorded now
+	output       string
 }
 
 var side sync.Map // hashOps -> []obs
@@ -231,6 +237,7 @@ type world struct {
 	known      map[string]bool // hex txn hashes that client-state leaves may carry
 	leaves     map[string]string
 	free       *freeBook // the harness's own bookkeeping of free-storage assigners (oracle side)
+	ms         *msBook   // the harness own book of multisig registrations and votes (oracle side)
 }
 
 var (
@@ -281,7 +288,7 @@ func newWorld(feeOn, fork bool) *world {
 	g := genesis[fi]
 	engine.SetFeeEnabled(feeOn)
 	w := &engine.World{C: g.C, NDB: g.NDB, Prev: g.Prev, Round: 0, Now: g.Now}
-	x := &world{w: w, wid: atomic.AddUint64(&worldCounter, 1), feeOn: feeOn, ext: map[string]int{}, extID: map[int]string{}, known: map[string]bool{}, free: newFreeBook()}
+	x := &world{w: w, wid: atomic.AddUint64(&worldCounter, 1), feeOn: feeOn, ext: map[string]int{}, extID: map[int]string{}, known: map[string]bool{}, free: newFreeBook(), ms: newMsBook()}
 	x.nextBlock()
 	x.known[encryption.Hash("verif-genesis-txn")] = true
 	x.leaves = x.clientLeaves()
@@ -481,7 +488,7 @@ func (x *world) dryRun(t *transaction.Transaction) (res string, signed []sigObs,
 		parts = append(parts, fmt.Sprintf("s,%d,%d,%d", idx(st.ClientID), idx(st.ToClientID), uint64(st.Amount)))
 		// the harness's own check of "the transfer carries that account's valid signature"
 		ok := st.VerifySignature(true) == nil && st.Amount > 0
-		signed = append(signed, sigObs{Src: idx(st.ClientID), Valid: ok})
+		signed = append(signed, sigObs{Src: idx(st.ClientID), Valid: ok, From: st.ClientID, To: st.ToClientID, Amount: uint64(st.Amount)})
 	}
 	if len(parts) == 0 {
 		return "ok", signed, newIDs
@@ -573,6 +580,17 @@ func (x *world) applyLine(pl parsed) (string, obs) {
 	o.status = x.exec(t)
 	o.output = t.TransactionOutput
 	x.free.observe(pl, o.status, x)
+	o.msRegByOther = x.ms.observe(pl, o.status, x)
+	if pl.typ == "sc" && pl.to == iMultisig && pl.p.Fn == "vote" {
+		var v voteJSON
+		if json.Unmarshal([]byte(pl.p.In), &v) == nil {
+			for k := range o.signed {
+				sg := &o.signed[k]
+				sg.MsChecked = true
+				sg.MsSelfRegistered, sg.MsQuorum, sg.MsRequired = x.ms.authorised(sg.From, sg.To, sg.Amount, v.ProposalID)
+			}
+		}
+	}
 	return o.status + " " + x.show(), o
 }
 
@@ -764,6 +782,22 @@ func oracle(ops, outs []string) *corr.Violation {
 		status, cur, ok := parseAccts(outs[i])
 		if !ok {
 			return mk("unparsable-answer", outs[i], i)
+		}
+		if o.msRegByOther {
+			return mk("multisig-wallet-registered-by-other", "a multisig wallet was registered (or replaced) over an account by a transaction that account did not send: its balance is now at the mercy of somebody else's signer keys", i)
+		}
+		if status != "rejected" {
+			for _, sg := range o.signed {
+				if !sg.MsChecked {
+					continue
+				}
+				switch {
+				case !sg.MsSelfRegistered:
+					return mk("multisig-wallet-registered-by-other", fmt.Sprintf("account %d is debited %d by a multisig transfer although the wallet registration over it was not sent by that account", sg.Src, sg.Amount), i)
+				case sg.MsRequired < 2 || sg.MsQuorum < sg.MsRequired:
+					return mk("multisig-transfer-without-quorum-for-it", fmt.Sprintf("account %d is debited %d (to %.8s…) by a multisig transfer that only %d of its registered signers signed (required %d): the other votes of the proposal were signed over a different transfer", sg.Src, sg.Amount, sg.To, sg.MsQuorum, sg.MsRequired), i)
+				}
+			}
 		}
 		if o.grantSeen && o.grantReplay && status == "success" {
 			return mk("marker-nonce-honoured-twice", "a free_allocation_request succeeded on a marker whose (assigner, nonce) had already been redeemed earlier in this history (each signed authorisation is honoured at most once, whatever registrations came in between)", i)
